@@ -250,6 +250,32 @@ func modeFallback(n int) {
 	runWorkers(u2, 4, n/8+1, 300*time.Millisecond, 300*time.Millisecond, false)
 	time.Sleep(350 * time.Millisecond)
 	u2.Close()
+	// fourth phase: the server's TCP port is down for a while (ten truncated replies: the fall-back's dial is
+	// refused, the exchange fails), then it is back: the fall-back works again
+	var tcpUp atomic.Bool
+	plan4 := func(ex int) (string, string) {
+		if tcpUp.Load() {
+			return "tc", "ok"
+		}
+		return "tc", "abort"
+	}
+	srv4 := newServer("f4", func(ex int, proto string) behaviour { return behaviour{tc: proto == "udp"} }, true, false)
+	defer srv4.close()
+	u4, err := upstream.NewUpstream("udp://"+srv4.addr, upstream.Opt{})
+	if err != nil {
+		panic(err)
+	}
+	planOf = plan4
+	runWorkers(u4, 2, 5, 300*time.Millisecond, 300*time.Millisecond, false)
+	if l, err := net.Listen("tcp", srv4.addr); err == nil {
+		srv4.tl = l
+		go srv4.serveTCP()
+		tcpUp.Store(true)
+		time.Sleep(20 * time.Millisecond)
+		runWorkers(u4, 2, 4, 300*time.Millisecond, 300*time.Millisecond, false)
+	}
+	time.Sleep(350 * time.Millisecond)
+	u4.Close()
 	planOf = nil
 	// the event filter stays on: hook events of worker goroutines that outlive the run must not reach this trace
 }
